@@ -156,6 +156,7 @@ func genRun(c *common.Corpus, seed uint64, cold bool, syncHeavy bool) (*simrt.Ru
 		}
 	case x < 66:
 		shape = "same_input"
+		spec.ShareInputs = seed&2 != 0 // half of these runs: one string value shared by all callers
 		a, i := api(), nonLong()
 		n := 1 + r.Intn(3)
 		for t := 0; t < nt; t++ {
